@@ -3,6 +3,7 @@ package main
 import (
 	"bytes"
 	"fmt"
+	"math/big"
 	"runtime/debug"
 
 	service "github.com/irismod/service"
@@ -169,6 +170,34 @@ func restartPreserves(prop string, x *OCtx, t *Trans) []Violation {
 				if pc.ResponseThreshold != qc.ResponseThreshold || pc.ModuleName != qc.ModuleName {
 					add("threshold-and-owner-carried-over-a-restart", name, fmt.Sprintf("context %s: threshold/module %d/%q before the restart, %d/%q after it", name, pc.ResponseThreshold, pc.ModuleName, qc.ResponseThreshold, qc.ModuleName))
 				}
+			}
+		}
+	case "C01", "C02":
+		// every pending fee goes back to the consumer who paid it, every unwithdrawn earning to its provider, nothing else moves
+		exp := map[string]*big.Int{}
+		for _, id := range pre.PendingIDs() {
+			if fee, consumer, _, _, _, ok := reqInfo(pre, id); ok {
+				addTo(exp, hexs(consumer), fee)
+				addTo(exp, hexs(reqAcc), neg(fee))
+			}
+		}
+		for _, p := range universe() {
+			if e := pre.EarnedOf(p); e != nil && e.Sign() > 0 {
+				addTo(exp, hexs(p), e)
+				addTo(exp, hexs(reqAcc), neg(e))
+			}
+		}
+		for _, k := range allBalKeys(pre, post) {
+			got, want := balDelta(pre, post, k), exp[k]
+			if want == nil {
+				want = new(big.Int)
+			}
+			if got.Cmp(want) != 0 {
+				who := nameOf(mustHex(k))
+				if k == hexs(reqAcc) {
+					who = "escrow"
+				}
+				add("restart-returns-pending-fees-and-earnings-exactly", who, fmt.Sprintf("%s moved by %s across the restart, pending fees and earnings say %s", who, got, want))
 			}
 		}
 	case "C15":
